@@ -436,7 +436,8 @@ impl Primitive {
             _ => (),
         }
 
-        self.equals(rhs).map(Primitive::Bool)
+        // values of kinds that cannot be compared are never the same thing
+        Ok(Primitive::Bool(self.equals(rhs).unwrap_or(false)))
     }
 
     /// Returns whether this primitive is numeric.
